@@ -659,28 +659,31 @@ def _split_opstr(optstr):
         >>> optstr = '+FOO, REQUIRES(foo,bar), +ELLIPSIS'
         >>> _split_opstr(optstr)
         ['+FOO', 'REQUIRES(foo,bar)', '+ELLIPSIS']
+        >>> _split_opstr('+ELLIPSIS +SKIP, -REQUIRES(a, b) -FOO')
+        ['+ELLIPSIS', '+SKIP', '-REQUIRES(a, b)', '-FOO']
     """
     import re
     stack = []
     split_pos = []
-    for match in re.finditer(r',|\(|\)', optstr):
+    # Options are separated by commas, or - as in the standard doctest module,
+    # "# doctest: +ELLIPSIS +SKIP" - by blanks in front of a signed option.
+    for match in re.finditer(r',|\(|\)|(?<=[^\s,(])\s+(?=[+-])', optstr):
         token = match.group()
-        if token == ',' and not stack:
-            # Only split when there are no parens
-            split_pos.append(match.start())
-        elif token == '(':
+        if token == '(':
             stack.append(token)
         elif token == ')':
             stack.pop()
+        elif not stack:
+            # Only split when there are no parens
+            split_pos.append((match.start(), match.end()))
     assert len(stack) == 0, 'parens not balanced'
 
     parts = []
     prev = 0
-    for curr in split_pos:
+    for curr, stop in split_pos:
         parts.append(optstr[prev:curr].strip())
-        prev = curr + 1
-    curr = None
-    parts.append(optstr[prev:curr].strip())
+        prev = stop
+    parts.append(optstr[prev:].strip())
     return parts
 
 
